@@ -5,6 +5,7 @@ package vplug
 import (
 	"context"
 	"fmt"
+	"reflect"
 	"strings"
 	"time"
 
@@ -106,8 +107,10 @@ func asInt(v any) int64 {
 func SuccessData(in map[string]any) map[string]any {
 	a := asInt(in["a"])
 	var l []any
-	if raw, ok := in["l"].([]any); ok {
-		l = append(l, raw...)
+	if rv := reflect.ValueOf(in["l"]); rv.IsValid() && rv.Kind() == reflect.Slice {
+		for i := 0; i < rv.Len(); i++ {
+			l = append(l, rv.Index(i).Interface())
+		}
 	}
 	b, _ := in["b"].(string)
 	c, _ := in["c"].(bool)
